@@ -65,3 +65,11 @@ package directive
 //@ func (Directive).Path(d)
 //@   property C01
 //@   modifies nothing
+
+// Two directives are the same occurrence iff they were scanned from the same file OBJECT at the same offset: every INCLUDE
+// reads its file anew, so the same piece included twice yields different occurrences (C09: a piece may be included in
+// several places; collectPathVariables uses Equal to reject a second Path under the same parent occurrence).
+//@ func (Directive).Equal(d, d2)
+//@   property C09
+//@   modifies nothing
+//@   ensures[C09,@same-occurrence] result == (d.keywordCoords.file == d2.keywordCoords.file && d.keywordCoords.begin == d2.keywordCoords.begin)
